@@ -2850,6 +2850,203 @@ fn check_meta_get(v: &wt::meta::Meta, stats: &Stats) -> CaseResult {
     Ok(())
 }
 
+// ---- fragments: public FontWrite building blocks that are not tables ------------------------------
+// PackedDeltas / PackedPointNumbers / TupleVariationHeader have no owned read-back type: the written value is the
+// constructor input, read back with the read-fonts counterparts and compared value by value; the re-dump is the value
+// rebuilt from what was read.
+
+fn frag_dump<T: FontWrite + Validate>(kind: &str, v: &T) -> Result<Vec<u8>, Fail> {
+    match guarded(|| dump_table(v)) {
+        Err(p) => Err(fail(format!("c04|dump-panic|{kind}|{}", panic_site(&p)), format!("dump_table panicked on a {kind}: {}", p.msg))),
+        Ok(Err(e)) => Err(fail(format!("c04|dump-err|{kind}"), format!("{kind} does not compile: {e}"))),
+        Ok(Ok(b)) => Ok(b),
+    }
+}
+
+fn test_packed_deltas(t: &mut Tape, stats: &Stats) -> CaseResult {
+    use wt::variations::PackedDeltas;
+    const I8S: &[i32] = &[1, -1, 127, -128, 5, -77];
+    const I16S: &[i32] = &[128, -129, 300, 32767, -32768, -1000];
+    const I32S: &[i32] = &[32768, -32769, 40000, i32::MAX, i32::MIN, -100_000, 65536];
+    let mut vals: Vec<i32> = vec![];
+    let nseg = t.len(8);
+    let mut classes = 0u32;
+    let mut prev_class = 9;
+    for _ in 0..nseg {
+        let class = t.below(4);
+        let len = match t.below(4) {
+            0 => 1,
+            1 => 1 + t.below(3) as usize,
+            2 => STRADDLE[t.below(5) as usize],       // 62..66
+            _ => STRADDLE[5 + t.below(5) as usize],   // 126..130
+        };
+        classes |= 1 << class;
+        if prev_class == 2 && class == 3 {
+            stats.class("gen:PackedDeltas:i16-then-i32");
+        }
+        if prev_class == 3 && class == 2 {
+            stats.class("gen:PackedDeltas:i32-then-i16");
+        }
+        prev_class = class;
+        for _ in 0..len {
+            vals.push(match class {
+                0 => 0,
+                1 => I8S[t.below(I8S.len() as u32) as usize],
+                2 => I16S[t.below(I16S.len() as u32) as usize],
+                _ => I32S[t.below(I32S.len() as u32) as usize],
+            });
+        }
+    }
+    stats.class("gen:PackedDeltas");
+    let b = frag_dump("PackedDeltas", &PackedDeltas::new(vals.clone()))?;
+    let got: Vec<i32> = guarded(|| read_fonts::tables::variations::PackedDeltas::consume_all(FontData::new(&b)).iter().take(vals.len() + 8).collect())
+        .map_err(|p| fail(format!("c04|reread-panic|PackedDeltas|{}", panic_site(&p)), p.msg.clone()))?;
+    if got != vals {
+        let k = got.iter().zip(&vals).position(|(a, b)| a != b);
+        return Err(fail(
+            "c04|roundtrip|PackedDeltas|values".into(),
+            format!("PackedDeltas: {} values written, {} read back; first difference at {k:?}: written {:?} (after {:?}), read back {:?}", vals.len(), got.len(), k.map(|k| vals[k]), k.and_then(|k| k.checked_sub(1)).map(|k| vals[k]), k.map(|k| got[k])),
+        ));
+    }
+    let b2 = frag_dump("PackedDeltas", &PackedDeltas::new(got))?;
+    if b2 != b {
+        return Err(fail("c04|redump-bytes|PackedDeltas".into(), "PackedDeltas rebuilt from the values read back compiles to different bytes".into()));
+    }
+    stats.class("s1:gen_ok");
+    if classes.count_ones() >= 2 {
+        stats.nontrivial(fnv64(&b));
+        if classes & 8 != 0 {
+            stats.class("gen:PackedDeltas:has-i32");
+        }
+    } else {
+        stats.class("gen:trivial");
+    }
+    Ok(())
+}
+
+fn test_packed_points(t: &mut Tape, stats: &Stats) -> CaseResult {
+    use wt::variations::PackedPointNumbers as W;
+    stats.class("gen:PackedPointNumbers");
+    let pts: Option<Vec<u16>> = if t.chance(1, 8) {
+        None
+    } else {
+        // count straddling 127/128, gaps straddling 255/256 (byte vs word runs), run lengths straddling 127/128
+        let n = match t.below(4) {
+            0 => 1 + t.below(5) as usize,
+            1 => STRADDLE[t.below(5) as usize],
+            _ => STRADDLE[5 + t.below(10) as usize],
+        };
+        let mut cur: u32 = if t.bool() { 0 } else { t.below(600) };
+        let mut out = vec![];
+        let mut mode = t.below(3);
+        let mut left = 0usize;
+        for _ in 0..n {
+            if left == 0 {
+                mode = t.below(3);
+                left = match t.below(3) {
+                    0 => 1 + t.below(3) as usize,
+                    1 => STRADDLE[t.below(5) as usize],
+                    _ => STRADDLE[5 + t.below(5) as usize],
+                };
+            }
+            left -= 1;
+            if cur > 0xFFFF {
+                break;
+            }
+            out.push(cur as u16);
+            cur += match mode {
+                0 => 1,
+                1 => 253 + t.below(5), // 253..257
+                _ => 1 + t.below(40),
+            };
+        }
+        Some(out)
+    };
+    let w = match &pts {
+        None => W::All,
+        Some(p) => W::Some(p.clone()),
+    };
+    let b = frag_dump("PackedPointNumbers", &w)?;
+    let bad = |what: &str, msg: String| fail(format!("c04|roundtrip|PackedPointNumbers|{what}"), format!("PackedPointNumbers: {msg}"));
+    let (count, rest, got) = guarded(|| {
+        let (r, rest) = read_fonts::tables::variations::PackedPointNumbers::split_off_front(FontData::new(&b));
+        (r.count(), rest.len(), r.iter().take(70_000).collect::<Vec<u16>>())
+    })
+    .map_err(|p| fail(format!("c04|reread-panic|PackedPointNumbers|{}", panic_site(&p)), p.msg.clone()))?;
+    let want = pts.clone().unwrap_or_default();
+    if count as usize != want.len() {
+        return Err(bad("count", format!("{} points written, count {count} read back", want.len())));
+    }
+    if rest != 0 {
+        return Err(bad("length", format!("{} bytes written, the reader consumes {} of them", b.len(), b.len() - rest)));
+    }
+    // a count of 0 means "all points": the reader's iterator then enumerates every point number, by design
+    if pts.is_some() && got != want {
+        let k = got.iter().zip(&want).position(|(a, b)| a != b);
+        return Err(bad("points", format!("{} points written, {} read back; first difference at {k:?}: written {:?}, read back {:?}", want.len(), got.len(), k.map(|k| want[k]), k.map(|k| got[k]))));
+    }
+    if pts.is_none() && got.len() < 65_535 {
+        return Err(bad("points", format!("All written, the reader enumerates only {} point numbers", got.len())));
+    }
+    let w2 = if pts.is_none() { W::All } else { W::Some(got) };
+    if frag_dump("PackedPointNumbers", &w2)? != b {
+        return Err(fail("c04|redump-bytes|PackedPointNumbers".into(), "PackedPointNumbers rebuilt from the points read back compiles to different bytes".into()));
+    }
+    stats.class(match want.len() {
+        0 => "gen:PackedPointNumbers:all",
+        1..=126 => "gen:PackedPointNumbers:count<127",
+        127..=129 => "gen:PackedPointNumbers:count=127..129",
+        _ => "gen:PackedPointNumbers:count>129",
+    });
+    stats.class("s1:gen_ok");
+    if want.len() > 1 {
+        stats.nontrivial(fnv64(&b));
+    } else {
+        stats.class("gen:trivial");
+    }
+    Ok(())
+}
+
+fn test_tuple_header(t: &mut Tape, stats: &Stats) -> CaseResult {
+    use wt::variations::{Tuple, TupleVariationHeader};
+    stats.class("gen:TupleVariationHeader");
+    let axes = t.len(4);
+    let tup = |t: &mut Tape| Tuple::new((0..axes).map(|_| t.f2()).collect());
+    let size = t.u16();
+    let shared = t.bool();
+    let idx = shared.then(|| t.below(0x1000) as u16);
+    let peak = (!shared).then(|| tup(t));
+    let inter = t.bool().then(|| (tup(t), tup(t)));
+    let private = t.bool();
+    let h = TupleVariationHeader::new(size, idx, peak.clone(), inter.clone(), private);
+    let b = frag_dump("TupleVariationHeader", &h)?;
+    let bad = |what: &str, msg: String| fail(format!("c04|roundtrip|TupleVariationHeader|{what}"), format!("TupleVariationHeader: {msg}"));
+    if h.compute_size() as usize != b.len() {
+        return Err(bad("compute_size", format!("compute_size() = {}, {} bytes written", h.compute_size(), b.len())));
+    }
+    let r = guarded(|| read_fonts::tables::variations::TupleVariationHeader::read(FontData::new(&b), axes as u16))
+        .map_err(|p| fail(format!("c04|reread-panic|TupleVariationHeader|{}", panic_site(&p)), p.msg.clone()))?
+        .map_err(|e| fail("c04|reread-err|TupleVariationHeader".into(), format!("{} bytes do not read back: {e}", b.len())))?;
+    let bits = |x: Option<read_fonts::tables::variations::Tuple>| x.map(|tu| tu.values.iter().map(|v| v.get().to_bits()).collect::<Vec<i16>>());
+    let wbits = |x: Option<&Tuple>| x.map(|tu| tu.values.iter().map(|v| v.to_bits()).collect::<Vec<i16>>());
+    let ti = r.tuple_index();
+    if r.variation_data_size() != size {
+        return Err(bad("variation_data_size", format!("{size} written, {} read back", r.variation_data_size())));
+    }
+    if ti.tuple_records_index() != idx || ti.embedded_peak_tuple() == shared || ti.intermediate_region() != inter.is_some() || ti.private_point_numbers() != private {
+        return Err(bad("tuple_index", format!("shared index {idx:?} / intermediate {} / private points {private} written, tuple index {:#06x} read back", inter.is_some(), ti.bits())));
+    }
+    if bits(r.peak_tuple()) != wbits(peak.as_ref()) {
+        return Err(bad("peak_tuple", format!("{:?} written, {:?} read back", wbits(peak.as_ref()), bits(r.peak_tuple()))));
+    }
+    if bits(r.intermediate_start_tuple()) != wbits(inter.as_ref().map(|i| &i.0)) || bits(r.intermediate_end_tuple()) != wbits(inter.as_ref().map(|i| &i.1)) {
+        return Err(bad("intermediate", "intermediate tuples differ after reading back".into()));
+    }
+    stats.class("s1:gen_ok");
+    stats.nontrivial(fnv64(&b));
+    Ok(())
+}
+
 // ---- dispatcher ---------------------------------------------------------------------------------
 
 /// (kind, weight, known-defect stage only)
@@ -2888,6 +3085,9 @@ const GEN_KINDS: &[(&str, u32)] = &[
     ("gvar", 8),
     ("sbix", 2),
     ("sbix-GlyphData", 1),
+    ("PackedDeltas", 6),
+    ("PackedPointNumbers", 3),
+    ("TupleVariationHeader", 1),
 ];
 
 fn gen_strategy(kinds: Vec<(&'static str, u32)>) -> impl Strategy<Value = GenCase> {
@@ -2992,6 +3192,9 @@ fn test_gen(c: &GenCase, stats: &Stats, known_stage: bool) -> CaseResult {
         "GSUB-alt-feature-params" => run_gen("GSUB", &b_gsub(t, true), t, stats),
         "FeatureVariations-alt-feature-params" => run_gen("FeatureVariations", &b_feature_variations_with(t, true), t, stats),
         "gvar" => test_gvar(t, stats),
+        "PackedDeltas" => test_packed_deltas(t, stats),
+        "PackedPointNumbers" => test_packed_points(t, stats),
+        "TupleVariationHeader" => test_tuple_header(t, stats),
         "sbix" => run_gen("sbix", &b_sbix(t), t, stats),
         "sbix-GlyphData" => run_gen("sbix-GlyphData", &b_sbix_glyph(t), t, stats),
         "GPOS" => run_gen("GPOS", &b_gpos(t), t, stats),
@@ -3009,7 +3212,7 @@ fn main() {
         "S1(a): every writable top-level table (25 tags) of every corpus font, unmutated. S1(b): a proptest tape (0..480 u32 words, 1/12 zero, 1/12 max) drives hand builders for 31 table/subtable kinds \
          (avar v1/v2, fvar with/without instances and postscript ids, STAT with value formats 1-4, name v0/v1, post 1/2/2.5/3, OS/2 v0/1/4/5, head, hhea, vhea, maxp 0.5/1.0, gasp, meta (incl. indexed access to script/lang tags), CPAL v0/v1, COLR v0/v1 with all 32 paint \
          formats, GDEF 1.0/1.2/1.3, MVAR/HVAR/VVAR, DeltaSetIndexMap f0/f1, ItemVariationStore short/long words, coverage/class/device formats, feature variations with all 5 condition formats, every GSUB and GPOS \
-         lookup type incl. extension, whole GSUB/GPOS tables, cmap subtables 0/4/6/10/12/13/14, BASE, hmtx, sbix header/strikes and GlyphData incl. dupe/flip, gvar through the GlyphVariations builder input: shared/private point sets with 0..258 explicit points straddling 127/128/129 and 255/256/257, zero/byte/word delta runs straddling 63/64/65, intermediate regions, shared peaks - compared per tuple via read-fonts); count fields always derived from the arrays, nullable offsets generated both ways, array lengths \
+         lookup type incl. extension, whole GSUB/GPOS tables, cmap subtables 0/4/6/10/12/13/14, BASE, hmtx, sbix header/strikes and GlyphData incl. dupe/flip, gvar through the GlyphVariations builder input: shared/private point sets with 0..258 explicit points straddling 127/128/129 and 255/256/257, zero/byte/word delta runs straddling 63/64/65, intermediate regions, shared peaks - compared per tuple via read-fonts; fragments PackedDeltas (zero/i8/i16/i32 incl. extremes, class changes at every position, run lengths straddling 63/64/65 and 127/128), PackedPointNumbers (All / Some, counts straddling 127/128, gaps straddling 255/256), TupleVariationHeader); count fields always derived from the arrays, nullable offsets generated both ways, array lengths \
          0/1/2-4/uniform with 1/24 large. S2: corpus tables (<= 48 KiB) under a strided field sweep (first 128 bytes) and havoc (1-6 edits), kept when they parse and validate. \
          Non-trivial: S1 - the value reaches >= 1 subtable through an offset or carries a non-default version/format discriminant; S2 - the mutated table parsed, validated and reached the idempotence comparison. \
          Distinct by hash of the compiled bytes B. Stages regress-corpus/regress-gen re-check the subjects of two repaired defects (avar v2, CPAL v1); stage known-gen only reproduces the listed findings (zero-sized records, fvar postscript id 0xFFFF, FeatureParams of alternate features), which the other stages exclude by construction.",
